@@ -13,6 +13,7 @@ import CodeLimit.Model.GitignoreOps
 import CodeLimit.Model.PyTreeOps
 import CodeLimit.Model.ProgMarkOps
 import CodeLimit.Model.GapsOps
+import CodeLimit.Model.EntryOps
 /-!
 Line-protocol driver for the executable models (`lean_exe cldriver`).
 One request per line, one reply per line, words separated by single blanks.
@@ -184,7 +185,7 @@ def handle (langs : Array Language) (line : String) : String :=
         return (if isNoclText v then "ok T" else "ok F")
     | _ =>
       -- operations contributed by the other models (each handler returns `none` for foreign commands)
-      let hs : List (String → List String → Option String) := [CL.RenderOps.handleRender, CL.Codebase.handleCodebase, CL.Cache.handleCache, CL.Json.Ops.handleReport, CL.Sel.handleSelect, CL.TreeOps.handleTree, CL.Gi.handleGitignore, CL.PyTreeOps.handlePyTree, CL.MarkOps.handleMark, CL.Gaps.Ops.handleGaps]
+      let hs : List (String → List String → Option String) := [CL.RenderOps.handleRender, CL.Codebase.handleCodebase, CL.Cache.handleCache, CL.Json.Ops.handleReport, CL.Sel.handleSelect, CL.TreeOps.handleTree, CL.Gi.handleGitignore, CL.PyTreeOps.handlePyTree, CL.MarkOps.handleMark, CL.Gaps.Ops.handleGaps, CL.Entry.Ops.handleEntry]
       (hs.findSome? (fun h => h cmd rest)).getD "bad-op"
 
 partial def loop (h : IO.FS.Stream) (out : IO.FS.Stream) (langs : Array Language) : IO Unit := do
